@@ -128,8 +128,7 @@ WATCH = {
             ("src/indexing.rs", "switch_on_list", r"impl Indexer for StaticCodeIndices"), ("src/indexing.rs", "switch_on_list", r"impl Indexer for DynamicCodeIndices"),
             ("src/indexing.rs", "merge_clause_index"), ("src/machine/mod.rs", "next_applicable_clause"), ("src/machine/mod.rs", "next_inner_applicable_clause"),
             ("src/machine/mod.rs", "next_clause_applicable")],
-    "C20": [("src/machine/copier.rs", "copy_partial_string"), ("src/machine/copier.rs", "copy_list"), ("src/machine/heap.rs", "allocate_pstr"),
-            ("src/machine/heap.rs", "allocate_cstr"), ("src/machine/heap.rs", "slice_to_str"), ("src/machine/heap.rs", "char_at"),
+    "C20": [("src/machine/copier.rs", "copy_partial_string"), ("src/machine/copier.rs", "copy_list"), ("src/machine/heap.rs", "slice_to_str"), ("src/machine/heap.rs", "char_at"),
             ("src/machine/partial_string.rs", "pre_cycle_discovery_stepper"), ("src/machine/partial_string.rs", "post_cycle_discovery_stepper"),
             ("src/machine/partial_string.rs", "to_string_mut"), ("src/machine/partial_string.rs", "walk_hare_to_cycle_end"),
             ("src/machine/machine_state_impl.rs", "try_from_list"), ("src/machine/machine_state_impl.rs", "try_from_inner_list"), ("src/machine/machine_state_impl.rs", "try_from_partial_string")],
@@ -143,6 +142,6 @@ WATCH = {
     "C03": [("src/arithmetic.rs", "compile_is"), ("src/codegen.rs", "compile_inlined"), ("src/codegen.rs", "compile_arith_expr"), ("src/codegen.rs", "compile_is_call"),
             ("src/debray_allocator.rs", "mark_non_var"), ("src/codegen.rs", "mark_non_callable"),
             ("src/machine/dispatch.rs", "re:.*_instr"), ("src/machine/arithmetic_ops.rs", "get_number"), ("src/machine/arithmetic_ops.rs", "get_rational")],
-    "C33": [("src/machine/heap.rs", "sized_iter_to_heap_list"), ("src/machine/heap.rs", "allocate_pstr"), ("src/machine/heap.rs", "allocate_cstr"), ("src/machine/heap.rs", "write_with"),
+    "C33": [("src/machine/heap.rs", "sized_iter_to_heap_list"), 
             ("src/machine/heap.rs", "functor_writer", r"impl Heap")],
 }
